@@ -715,8 +715,26 @@ func vfSleep(d time.Duration) {
 }
 
 func vfQuiesce() {
-	// let every other goroutine run until it blocks: natively, wait until nothing has moved for a while
-	time.Sleep(200 * time.Millisecond)
+	// let every other goroutine run until it blocks: natively, wait until nothing has moved for a while. Under the replay
+	// controller the wait hands the token over like any blocking call (the watchdog sees no progress); when the token
+	// comes BACK while this goroutine is still waiting, it is not blocked - it says so until the wait is over.
+	c := &vfCtl
+	end := time.Now().Add(200 * time.Millisecond)
+	gave := false
+	for time.Now().Before(end) {
+		time.Sleep(4 * time.Millisecond)
+		c.mu.Lock()
+		if c.active {
+			if g, ok := vfMyG(); ok {
+				if c.holder != g {
+					gave = true
+				} else if gave {
+					c.progress = time.Now() // the token has come back: still waiting, not blocked
+				}
+			}
+		}
+		c.mu.Unlock()
+	}
 }
 func vfGoroutineID() int {
 	c := &vfCtl
